@@ -9,7 +9,7 @@ import subprocess
 import sys
 import time
 
-sys.path.insert(0, '/verif/tools')
+sys.path.insert(0, os.path.dirname(os.path.dirname(os.path.abspath(__file__))))
 
 
 def main():
